@@ -5,7 +5,7 @@
 # Prints CAUGHT (check exited 1 with a VIOLATION line), MISSED (exit 0) or ERROR.
 set -u
 PATCH="$(readlink -f "$1")"; PROP="$2"; TIER="${3:-quick}"
-OUT="${MUTANT_OUT:-/tmp/mutant-out}/$(basename "$PATCH" .diff)-$PROP"
+NAME="$(basename "$PATCH" .diff)"; [ "$NAME" = patch ] && NAME="$(basename "$(dirname "$PATCH")")"; OUT="${MUTANT_OUT:-/tmp/mutant-out}/$NAME-$PROP"
 rm -rf "$OUT"; mkdir -p "$OUT"
 cp /verif/known_findings.json "$OUT/"
 if ! git -C /repo diff --quiet; then echo "ERROR /repo has uncommitted changes"; exit 3; fi
@@ -15,10 +15,10 @@ RC=$?
 git -C /repo checkout -- . 
 git -C /repo clean -fdq crates 2>/dev/null
 if [ $RC -eq 1 ] && grep -q "^VIOLATION property=$PROP" "$OUT/log.txt"; then
-  echo "CAUGHT $(basename "$PATCH") $PROP: $(grep -A1 '^VIOLATION' "$OUT/log.txt" | grep class | head -3 | tr '\n' ' ')"
+  echo "CAUGHT $NAME $PROP: $(grep -A1 '^VIOLATION' "$OUT/log.txt" | grep class | head -3 | tr '\n' ' ')"
 elif [ $RC -eq 0 ]; then
-  echo "MISSED $(basename "$PATCH") $PROP"
+  echo "MISSED $NAME $PROP"
 else
-  echo "ERROR $(basename "$PATCH") $PROP rc=$RC: $(tail -n 3 "$OUT/log.txt" | tr '\n' ' ')"
+  echo "ERROR $NAME $PROP rc=$RC: $(tail -n 3 "$OUT/log.txt" | tr '\n' ' ')"
 fi
 exit 0
